@@ -54,6 +54,11 @@ def _m_upb(ex, st, args, kw, node):
     if any(k not in f for k in need):
         raise PyRaise("AttributeError", "update_peaks_bounded runs before the object has its curves, masks and peak vectors")
     fr, am, wm = ex.arr(st, f["frequency"]), ex.arr(st, f["amplitude"]), ex.arr(st, f["valid_window_boolean_mask"])
+    # update_peaks_bounded writes both masks in place (C08): they, and the two peak vectors, must be four arrays, none a view of another
+    sids = [f[k_].sid for k_ in ("valid_window_boolean_mask", "valid_peak_boolean_mask", "_main_peak_frq", "_main_peak_amp")]
+    roots = [st.heap[s_].view_of or s_ for s_ in sids]
+    ex.add_obl(f"call-pre[update_peaks_bounded:masks-and-peak-vectors-are-separate-arrays@{node.lineno}]", "call-pre", st, z3.BoolVal(len(set(roots)) == 4), node.lineno,
+               "the window mask, the peak mask and the two peak vectors do not share storage")
     st.env["__upb"] = st.env["__upb"] + [(len(args) - 1, dict(kw), fr.data, am.data, am.shape, wm.data)]
     n, m = am.shape
     f["_main_peak_frq"] = ex.alloc_arr(st, (n,), PEAK_F(fr.data, am.data, n, m), "real", "fresh", tag="peak_frq")
